@@ -409,13 +409,15 @@ inductive Frame
   | bad
   deriving DecidableEq, Repr
 
+/-- the length field of the header at the front of the buffer -/
+def declLen (buf : Bytes) : Nat := be16 (buf.getD 16 0) (buf.getD 17 0)
+
 def parseFrame (v : Variant) (buf : Bytes) : Frame :=
-  if buf.length < 18 then .needMore else
-  let len := be16 (buf.getD 16 0) (buf.getD 17 0)
-  if v.frame && len < 19 then .bad
-  else if len < 18 then (if v.checked then .panic else .stall)
-  else if buf.length < len then .needMore
-  else .frame (buf.take len) (buf.drop len)
+  if buf.length < 18 then .needMore
+  else if v.frame && declLen buf < 19 then .bad
+  else if declLen buf < 18 then (if v.checked then .panic else .stall)
+  else if buf.length < declLen buf then .needMore
+  else .frame (buf.take (declLen buf)) (buf.drop (declLen buf))
 
 /-- The connection: frames until the buffered stream is exhausted, then end of input. `fuel` bounds the number of
 frames (every frame consumes at least 18 bytes: `buf.length + 1` always suffices, see `Props`). -/
